@@ -44,11 +44,17 @@ func VerifH_C06_icmp() {
 		verifAssert(r.TTL == attl, "record TTL is not the reply's TTL")
 		verifAssert(r.ICMP != nil && r.ICMP.Type == atyp && r.ICMP.Code == acode, "record type/code are not the reply's")
 	}
+	first := res.got
 	res.got = nil
 	b := ndBytes("B", n)
 	b = b[:n:n]
 	c06Partition(b, vpn, 1)
 	_ = pp.ProcessPacketData(b, nil)
+	if len(first) == 1 {
+		r := first[0].(*ScanResult)
+		verifAssert(r.IP == net.IP(aip).String() && r.TTL == attl && r.ICMP != nil && r.ICMP.Type == atyp && r.ICMP.Code == acode,
+			"an already emitted record changed when a later frame was processed (shared storage)")
+	}
 	verifAssert(len(res.got) <= 1, "more than one record for one frame")
 	if len(res.got) == 0 {
 		verifCover("no-record")
